@@ -862,7 +862,14 @@ def build_config(ctx, rng, fam, facts, keys, par, specs, workdir):  # noqa: ARG0
         cfg["certBlock"] = write(workdir, "cert_block.yaml", yaml.safe_dump(cb), text=True)
     signpriv = pki.path(keys["signer"], "priv", core.pick(rng, ["pem", "der"]))
     sp = core.pick(rng, ["mainRootCertPrivateKeyFile", "signPrivateKey", "signProvider"])
-    cfg[sp] = f"type=file;file_path={signpriv}" if sp == "signProvider" else signpriv
+    if sp == "signProvider" and rng.random() < 0.5:
+        # a plug-in style provider (HSM back end) that returns DER encoded ECDSA signatures: the container carries r||s
+        from vf.props.mbi_gen import der_signature_provider
+
+        cfg[sp] = f"type={der_signature_provider()};file_path={signpriv}"
+        ctx.count("signed_through_der_provider")
+    else:
+        cfg[sp] = f"type=file;file_path={signpriv}" if sp == "signProvider" else signpriv
     if par["firmware_version"] != 1 or rng.random() < 0.5:
         cfg["firmwareVersion"] = num(rng, par["firmware_version"])
     else:
